@@ -143,6 +143,6 @@ def build(x):
 ''')
     nx.bind('item', r'let (\w+)(?:\s*:\s*[^=;]+)? = self\.prev\.next\(\);')
     nx.insert_before(re.compile(r'let \w+(?:\s*:\s*[^=;]+)? = self\.prev\.next\(\);'), 'let ghost h0 = self.prev.hist();\n            ')
-    nx.insert_after(re.compile(r'let \w+(?:\s*:\s*[^=;]+)? = self\.prev\.next\(\);'), '\n            proof { let k = old(self).prev.hist().len() as int; assert(self.prev.hist().skip(k) =~= h0.skip(k).push(@{item})); lemma_sides_push(h0.skip(k), @{item}); }')
+    nx.insert_after(re.compile(r'let \w+(?:\s*:\s*[^=;]+)? = self\.prev\.next\(\);'), '\n            proof { let k = old(self).prev.hist().len() as int; assert(self.prev.hist().skip(k) =~= h0.skip(k).push(§item§)); lemma_sides_push(h0.skip(k), §item§); }')
     pieces += ["impl<Out1: ExchangeData, Out2: ExchangeData> Zip<Out1, Out2> {", nx, "}"]
     return pieces
